@@ -20,7 +20,7 @@ Proof.
   assert (RAW : forall j, rw_reg s j = true -> fdnum (fdt s (RAW_KEY j)) <> tfd s /\ rw_rfd s j <> tfd s /\ rw_wfd s j <> tfd s).
   { intros j RJ. destruct (dy_obj _ DI j RJ) as (FN & _). pose proof (dy_kern _ DI j RJ) as DK.
     unfold RAW_KEY. rewrite FN.
-    destruct (efd_raw s =? 0).
+    destruct (raw_is_pipe s j).
     - destruct DK as (R1 & W1 & v & vw & O1 & K1 & _ & _ & O2 & K2 & _).
       assert (A : rw_rfd s j <> tfd s) by (apply (TK _ v R1 O1); rewrite K1; discriminate).
       assert (B : rw_wfd s j <> tfd s) by (apply (TK _ vw W1 O2); rewrite K2; discriminate). auto.
